@@ -109,6 +109,31 @@ class Engine:
         self.solver_seconds += time.time() - t
         return r != z3.unsat
 
+    def path_model(self):
+        """A model of the current path condition (quantified hypotheses grounded), or None."""
+        s = z3.Solver()
+        s.set("timeout", 1000)
+        for f in [ax for _, ax in self.axioms] + list(self.pc):
+            for inst in ground(f, 6):
+                s.add(inst)
+        t0 = time.time()
+        if s.check() != z3.sat:
+            return None
+        best = s.model()
+        if time.time() - t0 > 0.3:
+            return best
+        ints = int_consts(s.assertions())
+        for bound in (3, 300):
+            s.push()
+            for c in ints:
+                s.add(c >= -bound, c <= bound)
+            if s.check() == z3.sat:
+                best = s.model()
+                s.pop()
+                break
+            s.pop()
+        return best
+
     def assume(self, cond):
         if isinstance(cond, bool):
             if not cond:
@@ -198,10 +223,23 @@ class Engine:
         s.add(z3.Not(g))
         r = s.check()
         if r == z3.unsat:
+            if getattr(self, "cross_check_cvc5", False) and self.use_cvc5:
+                res = run_cvc5(s.to_smt2(), self.timeout_ms)
+                if res == "sat":
+                    raise PyvcError("back ends disagree: z3 says unsat, cvc5 says sat")
+                return "proved", "z3+cvc5" if res == "unsat" else "z3(cvc5:" + str(res)[:12] + ")", None, None
             return "proved", "z3", None, None
         if r == z3.sat:
             return "refuted", "z3", s.model(), None
-        # unknown: try cvc5 on the SMT-LIB dump (proof pass)
+        # unknown: one retry with 5x the budget (verdicts must not flip under load)
+        if r == z3.unknown and budget == self.timeout_ms:
+            s.set("timeout", int(self.timeout_ms * 5))
+            r = s.check()
+            if r == z3.unsat:
+                return "proved", "z3(retry)", None, None
+            if r == z3.sat:
+                return "refuted", "z3(retry)", s.model(), None
+        # still unknown: try cvc5 on the SMT-LIB dump (proof pass)
         smt2 = None
         if self.use_cvc5:
             smt2 = s.to_smt2()
